@@ -169,7 +169,7 @@ func (g *gen) cls() Cls {
 
 func (g *gen) op() Op {
 	for {
-		k := g.pickW(20, 10, 25, 8, 10, 10, 10, 12, 4, 4)
+		k := g.pickW(20, 10, 25, 8, 10, 10, 10, 12, 4, 4, 9)
 		switch k {
 		case 0: // new
 			if g.nextVar >= MaxVars {
@@ -270,8 +270,20 @@ func (g *gen) op() Op {
 				continue
 			}
 			return Op{K: OpGoCall, Dst: -1, Src: g.goVars[g.r.Intn(len(g.goVars))], Reject: g.chance(1, 3), V: g.val(0)}
-		default:
+		case 9:
 			return Op{K: OpLog, Dst: -1, ID: g.newID()}
+		default: // an own "constructor" property on an existing promise
+			if len(g.defined) == 0 {
+				continue
+			}
+			cs := &CtorSpec{Getter: g.chance(2, 5), Val: CtorVal(g.r.Intn(int(NCtorVals)))}
+			if cs.Getter {
+				cs.ID = g.newID()
+				if g.chance(3, 10) {
+					cs.Throws, cs.N = true, g.newNum()
+				}
+			}
+			return Op{K: OpSetCtor, Dst: -1, Src: g.pickVar(), Ctor: cs}
 		}
 	}
 }
@@ -405,7 +417,7 @@ func (p *Program) Uses() (classes, thenables bool) {
 		}
 	}
 	opw = func(op *Op) {
-		if op.Cls != ClsPromise {
+		if op.Cls != ClsPromise || (op.Ctor != nil && (op.Ctor.Val == CvMyP || op.Ctor.Val == CvMyQ)) {
 			classes = true
 		}
 		hw(op.F)
